@@ -102,6 +102,16 @@ def gen_cases(rng, tier):
                 # the same value per base unit, and another one
                 ops.append(["q_hash", f"{rat(x)}@{u}", f"{rat(x * kv / ku)}@{v}"])
                 ops.append(["q_hash", f"{rat(x)}@{u}", f"{rat(x)}@{v}"])
+        # terms over two units that share a sort key and cannot be merged (two
+        # currencies, K and degC), written in both orders: whatever equality
+        # answers, equal terms must hash equal
+        for x, y in (("EUR", "USD"), ("K", "°C"), ("USD", "EUR")):
+            for a, b in ((f"u:{x}^1;u:{y}^-1", f"u:{y}^-1;u:{x}^1"),
+                         (f"u:{x}^1;u:{y}^-1;u:kg^-1", f"u:kg^-1;u:{y}^-1;u:{x}^1"),
+                         (f"n:3^1;u:{y}^2;u:{x}^1", f"u:{x}^1;n:3^1;u:{y}^2"),
+                         (f"u:{x}^1;u:{y}^1", f"u:{y}^1;u:{x}^1"),
+                         (f"u:{x}^1;u:{y}^-1", f"u:{x}^1;u:{y}^-1")):
+                ops.append(["rt_eq", a, b])
         cases.append({"ops": ops, "fork": True, "ctx": "refless-derived", "nsetup": n0,
                       "tags": ["refless-derived"]})
     return cases
